@@ -58,6 +58,22 @@ def layout_maps(ctx):
     return res
 
 
+_VERDICT = {}
+
+
+def verdict(fmt, ch, m):
+    """1 if the container of `fmt` takes the (valid, right-sized) channel map `m` on a handle that has written no audio, else 0 --
+    answered by the Lean model (`sfmodel chmap`, Sf.ChmapVerdict.containerAccepts), cached.  Used by the C16 ledger scenarios: a map
+    the container refuses is freed again inside the call and leaves no block behind."""
+    import subprocess
+    from . import build
+    key = ((fmt >> 16) & 0xFFF, ch, tuple(m))
+    if key not in _VERDICT:
+        p = subprocess.run([build.sfmodel_exe(), "chmap"], input="open %08x %d\nset %d %s\n" % (fmt, ch, 4 * ch, hexmap(m)), capture_output=True, text=True, timeout=60)
+        _VERDICT[key] = 1 if p.stdout.startswith("ret=1") else 0
+    return _VERDICT[key]
+
+
 class Script:
     def __init__(self, name, fmt, ch):
         self.name, self.fmt, self.ch = name, fmt, ch
